@@ -10,7 +10,7 @@
    that it will receive, in order, is the member list of k.  It is preserved by every delivery
    of the FIRST queued publication, and by every step that starts from an empty bus. *)
 From Coq Require Import List NArith ZArith Bool Lia Permutation.
-From Verif Require Import model.Hub corr.Hub_preds proofs.Hub_basics proofs.Hub_wf proofs.Hub_pending proofs.Hub_route.
+From Verif Require Import model.Hub corr.Hub_preds proofs.Hub_basics proofs.Hub_wf proofs.Hub_pending proofs.Hub_route proofs.Hub_refuted.
 Import ListNotations.
 Open Scope N_scope.
 
@@ -2997,3 +2997,160 @@ Proof.
   destruct (step h o) as [h1 o1]. cbn [fst snd] in *.
   pose proof (J_drain 500 h1 (gouts g o1) W1 J1) as J2. destruct (drain 500 h1) as [h2 o2]. cbn [fst snd] in *. now rewrite gouts_app.
 Qed.
+
+(* ------------------------------------------------------------------ every quiescent history *)
+Lemma J_init limits gated : J (init limits gated) g0.
+Proof.
+  split.
+  - constructor; unfold init, get_sess, room_of; cbn; intros; try discriminate; try contradiction; try constructor.
+  - intros x s Hs. unfold init, get_sess in Hs. cbn in Hs. discriminate.
+Qed.
+
+(* the bus is empty again after every step of the history (the step's cascade of publications was
+   delivered completely: drain did not run out of fuel) *)
+Fixpoint drained (h : hub) (ops : list op) : Prop :=
+  match ops with
+  | [] => True
+  | o :: r => h_bus (fst (qstep h o)) = [] /\ drained (fst (qstep h o)) r
+  end.
+Fixpoint drainedb (h : hub) (ops : list op) : bool :=
+  match ops with
+  | [] => true
+  | o :: r => match h_bus (fst (qstep h o)) with [] => drainedb (fst (qstep h o)) r | _ => false end
+  end.
+Lemma drainedb_ok ops : forall h, drainedb h ops = true -> drained h ops.
+Proof.
+  induction ops as [|o r IH]; intros h H; cbn [drained drainedb] in *; [exact I|].
+  destruct (h_bus (fst (qstep h o))) eqn:Hb; [|discriminate]. split; [reflexivity|now apply IH].
+Qed.
+
+Lemma vrun_cons st o r : vrun st (o :: r) = vrun (vstep st o) r.
+Proof. reflexivity. Qed.
+Lemma vstep_fst st o : fst (vstep st o) = fst (qstep (fst st) o).
+Proof. unfold vstep. destruct (qstep (fst st) o). reflexivity. Qed.
+Lemma vstep_snd st o : snd (vstep st o) = gouts (snd st) (snd (qstep (fst st) o)).
+Proof. unfold vstep. destruct (qstep (fst st) o). reflexivity. Qed.
+
+Lemma vrun_hub ops : forall st, fst (vrun st ops) = qrun (fst st) ops.
+Proof.
+  induction ops as [|o r IH]; intros st; [reflexivity|]. rewrite vrun_cons, IH, vstep_fst. reflexivity.
+Qed.
+
+Theorem J_vrun ops : forall h g, WF h -> J h g -> h_bus h = [] -> drained h ops ->
+  J (fst (vrun (h, g) ops)) (snd (vrun (h, g) ops)) /\ h_bus (fst (vrun (h, g) ops)) = [].
+Proof.
+  induction ops as [|o r IH]; intros h g W HJ Hb Hd; [split; assumption|].
+  destruct Hd as [Hd1 Hd2]. rewrite vrun_cons.
+  pose proof (J_qstep h g o W HJ Hb) as J1. pose proof (wf_qstep h o W) as W1.
+  destruct (vstep (h, g) o) as [h1 g1] eqn:Hv.
+  assert (E1 : h1 = fst (qstep h o)) by (change h1 with (fst (h1, g1)); rewrite <- Hv; apply vstep_fst).
+  assert (E2 : g1 = gouts g (snd (qstep h o))) by (change g1 with (snd (h1, g1)); rewrite <- Hv; apply vstep_snd).
+  subst h1 g1. now apply IH.
+Qed.
+
+(* ------------------------------------------------------------------ the statement of the property *)
+Definition set_eq (a b : list N) : Prop := forall z, In z a <-> In z b.
+
+(* what the session reconstructs is the member list of its room; in no room: no view *)
+Definition observer_ok (h : hub) (v : view) (s : session) : Prop :=
+  match s_room s with
+  | Some k => exists r V, room_of h k = Some r /\ v = Some (snd k, V) /\ set_eq V (r_members r)
+  | None => v = None
+  end.
+
+(* every live client session with a connection *)
+Definition observers_converged (h : hub) (g : ghost) : Prop :=
+  forall sid s c, get_sess h sid = Some s -> is_virtual (s_kind s) = false -> s_conn s = Some c ->
+    observer_ok h (g_view g sid) s.
+(* ... and every disconnected one, once it has resumed and received what was queued for it *)
+Definition observers_converged_queued (h : hub) (g : ghost) : Prop :=
+  forall sid s, get_sess h sid = Some s -> is_virtual (s_kind s) = false ->
+    observer_ok h (replay (s_pending s) (g_view g sid)) s.
+
+Lemma nmem_set_eq a b : (forall z, nmem z a = nmem z b) -> set_eq a b.
+Proof. intros H z. rewrite <- !nmem_In, H. reflexivity. Qed.
+
+Lemma J_observers_queued h g : J h g -> h_bus h = [] -> observers_converged_queued h g.
+Proof.
+  intros [H V] Hb sid s Hs Hv. specialize (V sid s Hs Hv (fun F => F)). rewrite Hb in V. unfold view_ok, observer_ok in *.
+  destruct (s_room s) as [k|]; [|exact V]. destruct V as [[]|(M & V0 & A & B & C & D)].
+  apply mem_of_some in A as (r & Hr & <-). exists r, V0. split; [exact Hr|]. split; [exact B|].
+  apply nmem_set_eq. intros z. exact (D z).
+Qed.
+Lemma J_observers h g : J h g -> h_bus h = [] -> observers_converged h g.
+Proof.
+  intros HJ Hb sid s c Hs Hv Hc. pose proof (J_observers_queued h g HJ Hb sid s Hs Hv) as O.
+  rewrite (j_pc _ _ (proj1 HJ) sid s Hs) in O by congruence. exact O.
+Qed.
+
+Theorem observers_converge_quiescent limits gated ops :
+  drained (init limits gated) ops ->
+  let st := vrun (init limits gated, g0) ops in
+  fst st = qrun (init limits gated) ops /\ observers_converged (fst st) (snd st) /\ observers_converged_queued (fst st) (snd st).
+Proof.
+  intros Hd. cbv zeta. split; [apply (vrun_hub ops (init limits gated, g0))|].
+  destruct (J_vrun ops (init limits gated) g0 (wf_init limits gated) (J_init limits gated) eq_refl Hd) as [HJ Hb].
+  split; [now apply J_observers|now apply J_observers_queued].
+Qed.
+
+(* the invariant itself, for reference: it also holds after every single delivery in publication order *)
+Theorem observers_invariant_quiescent limits gated ops :
+  drained (init limits gated) ops -> J (fst (vrun (init limits gated, g0) ops)) (snd (vrun (init limits gated, g0) ops)).
+Proof. intros Hd. apply (J_vrun ops (init limits gated) g0 (wf_init limits gated) (J_init limits gated) eq_refl Hd). Qed.
+
+(* ------------------------------------------------------------------ the hypothesis is satisfiable; what is not true *)
+Definition views_of (st : hub * ghost) : list (N * view * option (N * N)) :=
+  map (fun e => (fst e, g_view (snd st) (fst e), s_room (snd e))) (h_sessions (fst st)).
+Definition members_of (h : hub) : list ((N * N) * list N) := map (fun e => (fst e, r_members (snd e))) (h_rooms h).
+
+(* three clients and an internal client with virtual sessions: joins, a room change, a drop and a resume,
+   a takeover of a Nextcloud session id (the previous holder is removed), a room deletion, expiry *)
+Definition obs_ops : list op :=
+  [OConnect 1 0; OConnect 2 0; OConnect 3 0; OConnect 4 0;
+   OHello 1 (HV1 0 1 false); OHello 2 (HV1 0 2 false); OHello 3 (HV1 0 3 false); OHello 4 (HInternal 0 0 true false);
+   OJoin 1 5 11 (RepOk None 0); OJoin 2 5 12 (RepOk None 0); OJoin 3 5 13 (RepOk None 0);
+   OInternal 4 (IAdd 7 5 70 None None);
+   ODrop 2; OJoin 3 6 0 (RepOk None 0); OInternal 4 (IAdd 8 5 80 (Some 1) None); OInternal 4 (IRemove 7 5);
+   OConnect 5 0; OHello 5 (HResume (IdPriv 2));
+   OConnect 6 0; OHello 6 (HV1 0 6 false); OJoin 6 5 11 (RepOk None 0);
+   OApi 0 0 6 ADelete; OTick 100].
+
+Example obs_ops_drained : drained (init [0; 0] false) obs_ops.
+Proof. apply drainedb_ok. vm_compute. reflexivity. Qed.
+Example obs_ops_views :
+  views_of (vrun (init [0; 0] false, g0) obs_ops) =
+    [(2, Some (5, [2; 6; 7]), Some (0, 5)); (3, None, None); (4, None, None); (6, None, Some (0, 5)); (7, Some (5, [7; 2; 6]), Some (0, 5))] /\
+  members_of (fst (vrun (init [0; 0] false, g0) obs_ops)) = [((0, 5), [2; 6; 7])].
+Proof. vm_compute. split; reflexivity. Qed.
+
+(* Publication order alone is NOT enough (mode 2: explicit deliveries, every one of the first queued
+   publication): a client that joins room 5 and changes to room 6 before its "session joined" notice
+   for room 5 was processed is sent the members of room 5 afterwards and keeps them: the notice does
+   not name the room, and its time stamp is later than the second join.  The bus is empty at the end. *)
+Definition stale_snapshot_ops : list op :=
+  [OConnect 1 0; OConnect 2 0; OHello 1 (HV1 0 1 false); OHello 2 (HV1 0 2 false);
+   OJoin 2 5 0 (RepOk None 0); ODeliver 0; ODeliver 0;
+   OJoin 1 5 0 (RepOk None 0); OJoin 1 6 0 (RepOk None 0);
+   ODeliver 0; ODeliver 0; ODeliver 0; ODeliver 0; ODeliver 0; ODeliver 0].
+
+Lemma observers_fifo_refuted :
+  exists ops, Forall (fun o => match o with ODeliver pos => pos = 0 | _ => True end) ops /\
+              h_bus (run_mode 2 (init [0; 0] false) ops) = [] /\
+              P_hub 4 (model_case 2 [0; 0] ops) = Some (14, 2).
+Proof.
+  exists stale_snapshot_ops. split; [repeat constructor|]. split; vm_compute; reflexivity.
+Qed.
+
+(* The same effect inside the quiescent semantics when a step leaves publications behind (drain has
+   fuel for 500 deliveries; one request of the room API can publish more): the next steps start with a
+   bus that is not empty.  An artefact of the fuel, the reason for the hypothesis "drained". *)
+Definition fuel_ops : list op :=
+  [OConnect 1 0; OConnect 2 0; OHello 1 (HV1 0 1 false); OHello 2 (HV1 0 2 false);
+   OJoin 2 5 0 (RepOk None 0); OApi 0 0 9 (ADisinvite (map N.of_nat (seq 1000 1100)) []);
+   OJoin 1 5 0 (RepOk None 0); OJoin 1 6 0 (RepOk None 0)].
+
+Lemma observers_quiescent_without_drained_refuted :
+  h_bus (qrun (init [0; 0] false) fuel_ops) = [] /\ drainedb (init [0; 0] false) fuel_ops = false /\
+  views_of (vrun (init [0; 0] false, g0) fuel_ops) = [(1, Some (6, [1; 2]), Some (0, 6)); (2, Some (5, [2]), Some (0, 5))] /\
+  members_of (fst (vrun (init [0; 0] false, g0) fuel_ops)) = [((0, 5), [2]); ((0, 6), [1])].
+Proof. vm_compute. repeat split; reflexivity. Qed.
